@@ -143,7 +143,11 @@ def gen_universe(rng, engineered):
         return gen_universe(rng, engineered)
     for t in range(rng.randint(2, 3)):
         same = [nd["host"] for nd in nodes if nd["host"] in LOOP]
-        host = rng.choice(same) if same and (t == 0 or rng.random() < 0.6) else rng.choice(LOOP)
+        if t == 1:
+            # one target on another host than the first
+            host = rng.choice([h for h in LOOP if h != nodes[-1]["host"]])
+        else:
+            host = rng.choice(same) if same and (t == 0 or rng.random() < 0.6) else rng.choice(LOOP)
         free = [i for i in INSTS + [None] if (host, i) not in seen]
         inst = rng.choice(free)
         seen.add((host, inst))
@@ -245,10 +249,12 @@ def gen_histories(ctx, rng, nsets, orders, nkeys, nops, engineered_share=0.5, hi
             for step in range(nops):
                 non = [i for i in ids if i not in [m["node"] for m in cur]]
                 cands = upd_candidates(nodes, cur)
-                first = [c for c in cands if c[3] == UPD_CLASSES[0]]
-                if step == 0 and first and (o == 0 or rng.random() < 0.3):
+                # the first change of the listing orders 0, 1, 2 of a node set: an update to another
+                # instance on the same host, to another host, to another port (when there is one)
+                first = [c for c in cands if c[3] == UPD_CLASSES[o % 3]]
+                if step == 0 and first:
                     cands = first
-                elif rng.random() >= 0.45:
+                elif rng.random() >= 0.3:
                     cands = []
                 if cands:
                     cls = rng.choice(sorted(set(c[3] for c in cands), key=UPD_CLASSES.index))
